@@ -20,6 +20,10 @@ C05_KINDS = ("reparse-error", "different-program", "panic")
 C18_KINDS = ("not-idempotent", "tree-modified", "nondeterministic", "write-error-ignored", "print-error", "spurious-write-error", "panic")
 
 
+def kinds_of(out):
+    return out.split(":")[1].split(",") if out.startswith("FAIL:") else []
+
+
 def kind(out):
     return out.split(":")[1] if out.startswith("FAIL:") else None
 
@@ -39,7 +43,7 @@ class Base:
         g.with_comments = True
         n = 1200 if tier == "quick" else 12000
         hd = G.heredoc_corpus()
-        progs = CORPUS + G.arith_corpus() + (hd if tier == 'thorough' else rnd.sample(hd, 400)) + [g.program(rnd.choice([1, 2, 2, 3])) for _ in range(n)]
+        progs = CORPUS + G.arith_corpus() + hd + [g.program(rnd.choice([1, 2, 2, 3])) for _ in range(n)]
         pair = ",".join(str(i) for i in oa16())
         cases = []
         for k, p in enumerate(progs):
@@ -50,7 +54,7 @@ class Base:
         kinds = self.kinds
 
         def impl_ok(c, o):
-            return not (o.startswith("FAIL:") and kind(o) in kinds) and not o.startswith(("CRASH", "TIMEOUT", "PANIC"))
+            return not (o.startswith("FAIL:") and any(k in kinds for k in kinds_of(o))) and not o.startswith(("CRASH", "TIMEOUT", "PANIC"))
         return [{"name": "programs-x-configs", "harness": "rt", "driver": None, "cases": cases, "impl_ok": impl_ok, "chunk": 40,
                  "nontrivial": lambda c: len(c.split("\t")[0]) > 8,
                  "distribution": {"programs": len(progs), "all_256_configs_on": sum(1 for c in cases if "\tall\t" in c), "pairwise_16_on": sum(1 for c in cases if "\tall\t" not in c)}}]
@@ -84,7 +88,7 @@ class Base:
                 print("printed:", repr(unhx(p[3]).decode("utf-8", "replace")))
             except Exception:
                 pass
-        if (o.startswith("FAIL:") and kind(o) in self.kinds) or o.startswith(("CRASH", "TIMEOUT")):
+        if (o.startswith("FAIL:") and any(k in self.kinds for k in kinds_of(o))) or o.startswith(("CRASH", "TIMEOUT")):
             print("VIOLATION property=%s replay=(replayed)" % self.id)
             return 1
         print("replay: property holds on this case now")
